@@ -29,6 +29,7 @@ import (
 //   gs SyncGroup   go OffsetFetch   gh/<member> Heartbeat   gc OffsetCommit   gl/<member> LeaveGroup
 //   co/<n> cc/<n> coordinator connection n opened / closed   bo/<n> bc/<n> broker connection n dialled / closed by the client
 //   fq  Fetch request reached the broker
+//   lq  the ListOffsets request that follows an out-of-range Fetch reached the broker (never answered)
 //   lk/<n> library goroutines still alive at the end   oc/<n> connections still open at the end
 //   to/<c> call c had to return (its context was cancelled, or Close had returned) and was still blocked after the watchdog bound
 // ---------------------------------------------------------------------------------------------------------------
@@ -73,6 +74,7 @@ type rcfg struct {
 	// reads again), so that four connections cover the four placements
 	offNth, offConns int
 	offCode          int16
+	oorThenSilent    bool          // plain reader: the first Fetch is answered OFFSET_OUT_OF_RANGE, the ListOffsets that follows it is never answered
 	watch            bool          // group paths: WatchPartitionChanges (one more goroutine per generation, polling the coordinator)
 	lagEvery         time.Duration // plain reader: ReadLagInterval (the lag monitor goroutine dials its own connections)
 }
@@ -97,6 +99,10 @@ type rscenario struct {
 	hbs      int
 	holdJoin chan struct{}
 	offCalls map[int]int
+	// closeBound, when set, replaces the watchdog bound for Close in finish(): a scenario whose Close has to wait for a
+	// network deadline fixed in the library (the fetcher's 10 s around readOffsets)
+	closeBound time.Duration
+	oorSent    int32
 	member   string
 	lastMsg  kafka.Message
 	gotMsg   bool
@@ -275,6 +281,10 @@ func newRScenario(cfg rcfg) *rscenario {
 	}
 	s.br = &Broker{FetchMax: 2, Topic: "t",
 		OnOffset: func(conn int, ts int64) (int64, int16) {
+			if cfg.oorThenSilent && atomic.LoadInt32(&s.oorSent) == 1 {
+				s.rec.add("lq") // the ListOffsets after the out-of-range Fetch arrived; it is never answered
+				return 0, OffsetHang
+			}
 			if cfg.offNth > 0 && conn <= cfg.offConns {
 				s.mu.Lock()
 				if s.offCalls == nil {
@@ -296,6 +306,9 @@ func newRScenario(cfg rcfg) *rscenario {
 			s.rec.add("fq")
 			if cfg.broker == "silent" {
 				return FetchResp{Hang: true}
+			}
+			if cfg.oorThenSilent && atomic.CompareAndSwapInt32(&s.oorSent, 0, 1) {
+				return FetchResp{Err: 1, Hwm: int64(cfg.nmsgs), Cut: -1} // OFFSET_OUT_OF_RANGE
 			}
 			if q.Offset >= int64(cfg.nmsgs) {
 				time.Sleep(time.Duration(q.MaxWaitMs) * time.Millisecond / 2)
@@ -523,6 +536,9 @@ func (s *rscenario) waitTok(prefix string, d time.Duration) bool {
 func (s *rscenario) finish(base int, t0 time.Time) (string, string) {
 	s.closeBegin()
 	deadline := time.Now().Add(watchdog())
+	if s.closeBound > 0 {
+		deadline = time.Now().Add(s.closeBound)
+	}
 	closeState := "ret"
 	select {
 	case <-s.closed:
@@ -649,6 +665,21 @@ func readerScenario(kind int, r *rand.Rand) (string, string) {
 		s.closeBegin()
 		<-waitOr(s.closed)
 		s.wait(c, watchdog())
+		return s.finish(base, t0)
+	case 17: // a Fetch answered OFFSET_OUT_OF_RANGE, then the broker stops answering the ListOffsets the fetcher sends to find
+		// out where it is; Close.  The fetcher's only way out is the deadline its readOffsets helper arms (10 s, fixed in
+		// the library): Close has to return shortly after it, the connection closed.
+		s := newRScenario(rcfg{mode: "plain", broker: "ok", nmsgs: 2, oorThenSilent: true})
+		s.closeBound = 13 * time.Second
+		c := s.call("fetch")
+		s.waitTok("lq", 2*time.Second)
+		jitter()
+		s.closeBegin()
+		select {
+		case <-s.closed:
+		case <-time.After(s.closeBound):
+		}
+		s.wait(c, 200*time.Millisecond)
 		return s.finish(base, t0)
 	case 3: // plain reader, messages delivered and some still buffered when Close runs
 		s := newRScenario(rcfg{mode: "plain", broker: "ok", nmsgs: 3 + r.Intn(3)})
@@ -840,6 +871,28 @@ func readerPart(seed int64) {
 					fop, fimpl := fetcherTrace(evs)
 					emitSc(n, fop, fimpl)
 				}
+			}
+		}
+	}
+	// kind 17 waits for a 10 s deadline fixed in the library: once per quick run, twice per thorough run
+	extra := 1
+	if gen.Thorough() {
+		extra = 2
+	}
+	for i := 0; i < extra; i++ {
+		n++
+		if tooManyStuck() {
+			return
+		}
+		if only("rclose", n) || only("ftrace", n) {
+			kafka.VerifStart()
+			curWatch, curLongBackoff = false, false
+			op, impl := readerScenario(17, scRand(seed, 2, n))
+			evs := kafka.VerifStop()
+			emitSc(n, op, impl)
+			if strings.Contains(impl, "close=ret") {
+				fop, fimpl := fetcherTrace(evs)
+				emitSc(n, fop, fimpl)
 			}
 		}
 	}
